@@ -25,10 +25,12 @@ META = {
                   'object whose address exists only in stub machine code or in the unscanned itab word is reachable from the '
                   'variable through GC-visible pointers. The model is tied to the code by differential execution.',
     'level_note': 'Partial: the real garbage collector, the runtime\'s itab/method-set layout, reflect.MakeFunc and the Go ABI are '
-                  'trusted/observed (finalizer probes + calls after forced GC with heap churn), not modelled. Histories use the '
-                  'builder API as documented (mock.Interface(&v).Method(..)...); retained CachedInterfaceMocker handles used after '
-                  'Reset, two builders mocking the same variable, and user assignments to a mocked variable are outside the '
-                  'quantifier. Trusted: Lean kernel, harness, generators.',
+                  'trusted/observed (finalizer probes + calls after forced GC with heap churn), not modelled; arguments are '
+                  'three signature classes. Theorems quantify over builder-API histories (mock with fitting or rejected '
+                  'callbacks, per-method Cancel, Reset, drop, assignments by the test); handles kept across Reset are modelled '
+                  'and run but outside Reachable. Recorded defects of the unchanged code that the run reproduces as KNOWN-FINDING: '
+                  'F25 kept handle re-mocks, F27 same-named foreign unexported method, F28 two builders on one variable, '
+                  'F29 second Reset clobbers an assigned variable. Trusted: Lean kernel, harness, generators.',
 }
 
 PKG = 'github.com/tencent/goom'
@@ -256,6 +258,8 @@ def gen_history(rng, types, lane):
     life = {}          # (v, method) -> its mocker has a When (since its last Apply / Reset)
     canceled = {}      # handle-mode var -> number of re-mocks since its context was canceled (None: context live)
     applied = set()    # (v, method) successfully mocked since the variable was last restored
+    holds = {}         # v -> the variable currently holds the fake interface
+    kindof = {}        # (v, method) -> kind of its current replacement
     nops = 3 + rng.below(12)
 
     def observe_all():
@@ -264,6 +268,26 @@ def gen_history(rng, types, lane):
             if rng.below(2) == 0:
                 ops.append(f'wd:{v}')
 
+    def try_pc(alive):
+        # schedules: another goroutine keeps calling an already mocked method while further methods are mocked
+        nonlocal k
+        cc = [(v, m) for (v, m) in sorted(applied) if holds.get(v) and not handle[v] and kindof.get((v, m)) in ('ap', 'rt')
+              and vars_[v][2] in alive and len(vars_[v][0]['decl']) >= 2]
+        if not cc:
+            return False
+        v, called = rng.choice(cc)
+        t, _, b = vars_[v]
+        others = [m for m in sorted_methods(t['decl']) if m != called]
+        names = [rng.choice(others) for _ in range(1 + rng.below(4))]
+        ops.append(f'pc:{b}:{v}:{called}:{k}:{",".join(names)}')
+        for m2 in names:
+            life[(v, m2, b)] = False
+            applied.add((v, m2))
+            kindof[(v, m2)] = 'ap'
+        k += len(names)
+        observe_all()
+        return True
+
     if rng.below(3) == 0:
         ops.append(f'od:{ta["id"]}')
     if rng.below(4) == 0:
@@ -271,6 +295,8 @@ def gen_history(rng, types, lane):
     for _ in range(nops):
         r = rng.below(100)
         alive = [b for b in (0, 1) if b not in dropped]
+        if lane == 'conc' and rng.below(3) == 0 and try_pc(alive):
+            continue
         cand = [v for v, (_, _, ow) in enumerate(vars_) if ow in alive]
         if r < (60 if kept else 70) and cand:
             v = rng.choice(cand)
@@ -309,6 +335,8 @@ def gen_history(rng, types, lane):
                 ops.append(f'{h}{kind}:{b}:{v}:{m}:{k}')
             life[(v, m, b)] = kind != 'ap'            # Apply drops the When (iface.go:94)
             applied.add((v, m))
+            holds[v] = True
+            kindof[(v, m)] = kind
             if handle[v] and canceled.get(v) is not None:
                 canceled[v] += 1
             k += 1
@@ -326,6 +354,7 @@ def gen_history(rng, types, lane):
             ops.append(f'cn:{b}:{v}:{m}')
             if m in srt:
                 if (v, m) in applied:
+                    holds[v] = False
                     for key in [key for key in life if key[0] == v]:
                         del life[key]
                     applied.difference_update({key for key in applied if key[0] == v})
@@ -339,11 +368,16 @@ def gen_history(rng, types, lane):
                 ops.append(f'{kind}:{b}:{v}:{m2}:{k}')
                 life[(v, m2, b)] = kind != 'ap'
                 applied.add((v, m2))
+                holds[v] = True
+                kindof[(v, m2)] = kind
                 k += 1
             observe_all()
         elif r < 82 and alive:
             b = rng.choice(alive)
             ops.append(f'rs:{b}')
+            for v_ in range(len(vars_)):
+                if vars_[v_][2] == b:
+                    holds[v_] = False
             applied.difference_update({key for key in applied if vars_[key[0]][2] == b})
             for key in [key for key in life if key[2] == b]:
                 del life[key]
@@ -355,9 +389,13 @@ def gen_history(rng, types, lane):
             # the test assigns the variable itself (nil or a real implementation), mocked or not
             free = [v for v in range(len(vars_)) if not handle[v]]
             if free:
-                ops.append(f'as:{rng.choice(free)}:{rng.below(3) and 1 + rng.below(9)}')
+                va = rng.choice(free)
+                ops.append(f'as:{va}:{rng.below(3) and 1 + rng.below(9)}')
+                holds[va] = False
             if rng.below(2) == 0:
                 observe_all()
+        elif r < 89 and lane in ('plain', 'gc'):
+            try_pc(alive)
         elif r < 90:
             observe_all()
         elif lane == 'gc' or (kept and rng.below(3) == 0):
@@ -505,6 +543,15 @@ def spec_expect(line):
                 cur[v] = ('fake',)
                 owner[v] = b
                 exp.append((f, 'ok'))
+        elif o == 'pc':
+            b, v, k = int(f[1]), int(f[2]), int(f[4])
+            for i_, m in enumerate(f[5].split(',')):
+                mocked[v][m] = ('ap', k + i_, None)
+            if saved[v] is None:
+                saved[v] = cur[v][1]
+            cur[v] = ('fake',)
+            owner[v] = b
+            exp.append((f, 'ok'))               # every concurrent call returned the called method's replacement
         elif o == 'as':
             cur[int(f[1])] = ('val', int(f[2]))
             exp.append((f, 'ok'))
@@ -568,7 +615,7 @@ def two_builder_pattern(line):
     _, _, ops = parse_line(line)
     owner = {}
     for f in ops:
-        if f[0] in MOCKS or f[0] == 'cn':
+        if f[0] in MOCKS or f[0] in ('cn', 'pc'):
             v, b = int(f[2]), int(f[1])
             if owner.setdefault(v, b) != b:
                 return True
@@ -581,8 +628,7 @@ def reset_again_pattern(line):
     _, _, ops = parse_line(line)
     owner, stale, armed = {}, {}, set()
     for f in ops:
-        if f[0] in MOCKS:
-            via, _, fits = kind_of(f[0])
+        if f[0] in MOCKS or f[0] == 'pc':
             v = int(f[2])
             owner[v] = int(f[1])
             stale.pop(v, None)
@@ -844,11 +890,11 @@ def run(tier):
     for i in range(ntypes * per):
         r = hr.below(40)
         lane = ('gc' if r < 10 else 'malformed' if r < 16 else 'kept' if r < 24 else 'twin' if r < 27 else 'twob' if r < 29
-                else 'kept-multi' if r == 29 and hr.below(2) == 0 else 'plain')
+                else 'kept-multi' if r == 29 and hr.below(2) == 0 else 'conc' if r < 33 else 'plain')
         sub = twins if lane == 'twin' else (types if hr.below(4) else types[:24])
         ops.append(gen_history(hr, sub, lane))
         lanes[lane] = lanes.get(lane, 0) + 1
-    floors = {'plain': 50, 'gc': 50, 'kept': 30, 'malformed': 20, 'twin': 5, 'twob': 5, 'wide': 2, 'deep': 1, 'twin-sweep': 2, 'sweep': 12}
+    floors = {'conc': 5, 'plain': 50, 'gc': 50, 'kept': 30, 'malformed': 20, 'twin': 5, 'twob': 5, 'wide': 2, 'deep': 1, 'twin-sweep': 2, 'sweep': 12}
     short = {k_: lanes.get(k_, 0) for k_, v_ in floors.items() if lanes.get(k_, 0) < v_}
     if short:
         raise C.Infra(f'C07 generator produced too few histories in lanes {short}')
@@ -955,7 +1001,7 @@ def run(tier):
         'distribution': dist,
         'samples': [{'op': ops[i], 'impl': impl[i], 'model': model[i] if model else None} for i in (0, len(ops) // 3, len(ops) // 2, len(ops) - 1)],
     }
-    out.assumptions = ['garbage collector behaviour is observed, not modelled', 'histories use the builder API (mock.Interface(&v).Method(..)..) with one builder per variable']
+    out.assumptions = ['garbage collector behaviour is observed, not modelled', 'signature classes (int)int, (int,string)int, ()string stand for the ABI; C13/C15 cover sizes and the stub bytes']
     return out.finish()
 
 
@@ -972,6 +1018,9 @@ def shrink(binary, line, hint):
             if f[0] in MOCKS:
                 f[4] = str(k)
                 k += 1
+            elif f[0] == 'pc':
+                f[4] = str(k)
+                k += len(f[5].split(','))
             res.append(':'.join(f))
         return 'c07.hist ' + ' '.join(head + res)
 
